@@ -150,6 +150,11 @@ class SimTransport:
             self.raised.append(exc)
             if self.log is not None:
                 self.log.append((self.loop.time(), "data_received_raised", type(exc).__name__))
+            if getattr(self, "swallow_protocol_errors", False):
+                # what the serial transports (pyserial-asyncio and descendants) do: the exception ends up in the loop's exception handler,
+                # the port stays open and reading goes on
+                self.loop.call_exception_handler({"message": "protocol.data_received() call failed", "exception": exc, "transport": self})
+                return
             self._force_close(exc)
 
     def _force_close(self, exc):
